@@ -18,6 +18,7 @@ CONSTANTS
   LiveRounds = FALSE
   CachePutFails = TRUE
   CrashInCreate = TRUE
+  IssuerEntries = {}
   Stops = FALSE
 INVARIANTS LockAppendOnly PublishedWasLocked AckInLock SameAck PubBacked ImmutableStable LeafTimes LoserStops NoForkInLock LeafCount
 PROPERTIES LockStepExtends PubStepWasLocked OutcomeIsFinal
